@@ -63,7 +63,7 @@ func runBad(c *Ctx, prop string) {
 	n := c.N(220, 12000)
 	layouts := allLayouts
 	if prop == "C18" {
-		layouts = []layoutKind{layOneFile, layPerDef, layPartition, layGoRaw, layGoRawNL, layGoNested, laySameBase, layOutside, layCRLF, layCR}
+		layouts = []layoutKind{layOneFile, layPerDef, layPartition, layGoRaw, layGoRawNL, layGoNested, laySameBase, layOutside, layCRLF, layCR, layMixedEnds}
 	}
 	for i := 0; i < n; i++ {
 		r := c.Rng("bad", i)
